@@ -41,6 +41,18 @@ fn corpus() -> Vec<Case> {
         c.input.bs = 64.min(c.input.bs);
         v.push(c);
     }
+    // isolated full-scale clicks in silence, 8 and 12 bits: residuals whose unary codes are longer than
+    // 64 zeros (several calls of the provided write_zeros per code)
+    for (bps, ch) in [(8u8, 1u8), (12, 2)] {
+        let mut c = universe::decode(&universe::base_points()[0]);
+        c.input.bps = bps;
+        c.input.ch = ch;
+        c.input.atoms = [23, 23, 7, 23];
+        c.input.full = 2;
+        c.input.tail = 40;
+        c.input.bs = 64;
+        v.push(c);
+    }
     v
 }
 
@@ -257,5 +269,5 @@ pub fn run(args: &Args, rep: &Arc<Report>) {
         },
     );
     rep.extra("targets", json!(n));
-    rep.set_rule("targets (plus every single-coordinate deviation of the universe base points with block size <= 64 and <= 3 channels): 5 streams (1/2/8 channels, constant+verbatim+fixed+LPC subframes, 2-3 frames) as whole streams (plain, with precomputed frames, with an extra metadata block), STREAMINFO, a metadata block, and every frame (plain/precomputed), frame header, subframe and residual of them; for each target and each of four sink flavours (required methods only / all methods / failing only in write_bytes_aligned / failing once and accepting again afterwards) the sink fails on operation k for EVERY k in 0..N (N = operations of a full write, measured); oracle: write returns Err(OutputError::Sink), no panic, the bits accepted before the failure are a prefix of the reference bit string; non-trivial = a target whose sweep ran");
+    rep.set_rule("targets (plus every single-coordinate deviation of the universe base points with block size <= 64 and <= 3 channels): 7 streams (1/2/8 channels, constant+verbatim+fixed+LPC subframes, 2-3 frames; two with isolated full-scale clicks, i.e. unary codes longer than 64 zeros) as whole streams (plain, with precomputed frames, with an extra metadata block), STREAMINFO, a metadata block, and every frame (plain/precomputed), frame header, subframe and residual of them; for each target and each of four sink flavours (required methods only / all methods / failing only in write_bytes_aligned / failing once and accepting again afterwards) the sink fails on operation k for EVERY k in 0..N (N = operations of a full write, measured); oracle: write returns Err(OutputError::Sink), no panic, the bits accepted before the failure are a prefix of the reference bit string; non-trivial = a target whose sweep ran");
 }
